@@ -97,7 +97,14 @@ func runOne(sd solverDef, body string, wantModel bool, timeoutS int, ctx context
 // Solve races the solvers. quick: z3-new alone first with a short timeout
 // (most obligations are decided there in milliseconds), then all three.
 func Solve(body string, timeoutS int) SolveResult {
-	r := runOne(solvers[0], body, true, min(timeoutS, 3), context.Background())
+	first := solvers[0]
+	firstT := min(timeoutS, 3)
+	if strings.Contains(body, "(forall ") || strings.Contains(body, "(exists ") {
+		// quantified goals: cvc5 answers these in milliseconds where z3 may time out
+		first = solvers[2]
+		firstT = min(timeoutS, 2)
+	}
+	r := runOne(first, body, true, firstT, context.Background())
 	if r.Status != "unknown" {
 		return r
 	}
